@@ -357,12 +357,90 @@ def gen_auto(rng: random.Random) -> dict:
     return dict(kind="auto", device=dev, ids=names, coords=[[float(c) for c in p] for p in pts])
 
 
+# ------------------------------------------------------------------ histories
+def gen_hist(rng: random.Random) -> dict:
+    """one layout (and a register on it) validated in turn against two or three
+    devices that share their name and differ in ONE geometric limit, in both
+    orders and through every entry point"""
+    virt = rng.random() < 0.5
+    md = rng.choice([1, 2, 4, 4.0, 5, 2.5])
+    side = rng.choice([3, 4, 5, 6])
+    sp = float(md) + rng.choice([0.0, 0.5, 1.0, 1.5, 1e-7])
+    grid = [[sp * (i - (side - 1) / 2), sp * (j - (side - 1) / 2)] for i in range(side) for j in range(side)]
+    rmax = max(math.hypot(*p) for p in grid)
+    R = int(math.ceil(rmax)) + rng.choice([0, 1, 5, 20])
+    fill = rng.choice([0.5, 0.5, 0.75, 1.0, 0.25])
+    base = dict(cls="VirtualDevice" if virt else "Device", dimensions=rng.choice([2, 2, 3]), rydberg_level=60,
+                min_atom_distance=md, max_atom_num=rng.choice(([None] if virt else []) + [6, 20]),
+                max_radial_distance=rng.choice(([None] if virt else []) + [R, R]),
+                max_layout_filling=fill, optimal_layout_filling=None, min_layout_traps=1,
+                max_layout_traps=rng.choice([None, None, side * side, 64]))
+    if base["max_layout_traps"] is not None and base["max_atom_num"] is not None \
+            and int(fill * base["max_layout_traps"]) < base["max_atom_num"]:
+        base["max_layout_traps"] = None
+
+    def variant():
+        v = dict(base)
+        f = rng.choice(["min_atom_distance", "min_atom_distance", "max_radial_distance", "max_radial_distance",
+                        "min_layout_traps", "max_layout_traps", "max_layout_filling", "dimensions"])
+        if f == "min_atom_distance":
+            v[f] = rng.choice([float(md) + 2, sp + 0.25, sp + 1e-5, sp, max(0.0, float(md) - 1)])
+        elif f == "max_radial_distance":
+            v[f] = rng.choice([max(1, int(rmax) - 1), max(1, int(rmax // 2)), max(1, int(sp)), R + 7])
+        elif f == "min_layout_traps":
+            v[f] = rng.choice([side * side, side * side + 1])
+            if v["max_layout_traps"] is not None and v["max_layout_traps"] < v[f]:
+                v["max_layout_traps"] = None
+        elif f == "max_layout_traps":
+            v[f] = rng.choice([side * side - 1, side * side])
+            if v["max_atom_num"] is not None and int(fill * v[f]) < v["max_atom_num"]:
+                v["max_atom_num"] = max(1, int(fill * v[f]))
+        elif f == "max_layout_filling":
+            v[f] = rng.choice([0.1, 0.05])
+            if v["max_layout_traps"] is not None and v["max_atom_num"] is not None \
+                    and int(v[f] * v["max_layout_traps"]) < v["max_atom_num"]:
+                v["max_layout_traps"] = None
+        else:
+            v[f] = 3 if base["dimensions"] == 2 else 2
+        return v
+
+    devices = [base, variant()]
+    if rng.random() < 0.3:
+        devices.append(variant())
+    # atoms: a few traps, two grid steps apart (so that the atoms themselves fit the stricter devices)
+    cand = [p for k, p in enumerate(grid) if (k // side) % 2 == 0 and (k % side) % 2 == 0]
+    cand.sort(key=lambda p: (p[0] ** 2 + p[1] ** 2, p))
+    n = min(len(cand), rng.choice([1, 2, 2, 3]), max(1, int(fill * len(grid))))
+    if rng.random() < 0.3:
+        cand = [grid[0], grid[-1]] + [p for p in cand if p not in (grid[0], grid[-1])]
+    coords = [list(map(float, p)) for p in cand[:n]]
+    names = rng.sample(NAMES, len(coords))
+    traps = [list(map(float, p)) for p in grid]
+    rng.shuffle(traps)
+    entries = ["validate_layout", "validate_register", "sequence", "mappable"]
+    order = list(range(len(devices)))
+    if rng.random() < 0.5:
+        order.reverse()
+    if rng.random() < 0.4:
+        order = order + [order[0]]
+    steps = []
+    for d in order:
+        e = rng.choice(entries)
+        st = dict(dev=d, entry=e)
+        if e == "mappable":
+            st["n_ids"] = max(1, min(len(traps), rng.choice([1, n, int(fill * len(traps))])))
+        steps.append(st)
+    return dict(kind="hist", devices=devices, dim=2, ids=names, coords=coords, layout=traps, steps=steps)
+
+
 def gen_case(rng: random.Random, tier: str) -> dict:
     r = rng.random()
     if r < 0.55:
         return gen_val(rng)
     if r < 0.75:
         return gen_dev(rng)
-    if r < 0.9:
+    if r < 0.88:
         return gen_mc(rng)
+    if r < 0.94:
+        return gen_hist(rng)
     return gen_auto(rng)
